@@ -19,6 +19,8 @@ type dump struct {
 	Grpc          Grpc           `json:"grpc"`
 	GoEnums       []GoEnum       `json:"go_enums"`
 	GoStructs     []GoStruct     `json:"go_structs"`
+	ExtTypes      []ExtType      `json:"ext_types"`
+	OpaqueImports []string       `json:"opaque_imports,omitempty"`
 	Resolve       []ResolveConst `json:"resolve,omitempty"`
 	ResolveImport string         `json:"resolve_api_import,omitempty"`
 }
@@ -59,7 +61,9 @@ func Main(version string, fd protoreflect.FileDescriptor, sd grpc.ServiceDesc, w
 	if err != nil {
 		die(2, err)
 	}
-	pf, perr := ParseProto(ProtoFileName(protoPath), string(src))
+	d.ExtTypes = ExtTypes(fd)
+	pf, opaque, perr := ParseProtoWith(ProtoFileName(protoPath), string(src), DefaultImports)
+	d.OpaqueImports = opaque
 	if perr != nil {
 		d.ProtoError = "api/" + version + "/" + perr.Error()
 	} else {
@@ -83,13 +87,32 @@ func Main(version string, fd protoreflect.FileDescriptor, sd grpc.ServiceDesc, w
 	fmt.Fprintf(&sb, "Definition %s_proto : file :=\n  %s.\n\n", version, d.Proto.Coq())
 	fmt.Fprintf(&sb, "Definition %s_grpc : grpc_desc :=\n  %s.\n\n", version, d.Grpc.Coq())
 	fmt.Fprintf(&sb, "Definition %s_go_enums : list (bytes * list (bytes * Z)) :=\n  %s.\n\n", version, coqGoEnums(d.GoEnums))
-	fmt.Fprintf(&sb, "Definition %s_go_structs : list (bytes * list (bytes * bytes * bytes)) :=\n  %s.\n\n", version, coqGoStructs(d.GoStructs))
+	fmt.Fprintf(&sb, "Definition %s_go_structs : list (bytes * list go_field) :=\n  %s.\n\n", version, coqGoStructs(d.GoStructs))
+	fmt.Fprintf(&sb, "Definition %s_ext_types : list (bytes * (bytes * bytes)) :=\n  %s.\n\n", version, coqExtTypes(d.ExtTypes))
 	if withResolve {
 		fmt.Fprintf(&sb, "(* ---- util/resolve/resolve.go ---- *)\n")
 		fmt.Fprintf(&sb, "Definition resolve_systems : list (bytes * option Z) :=\n  %s.\n\n", coqResolve(d.Resolve))
 		fmt.Fprintf(&sb, "Definition resolve_api_import : bytes := %s.\n\n", coqBytes(d.ResolveImport))
 	}
 	if err := os.WriteFile(filepath.Join(outDir, "apidesc_"+version+".frag"), []byte(sb.String()), 0o644); err != nil {
+		die(2, err)
+	}
+}
+
+// RuntimeSystems is the body of cmd/resolvesys: it writes the values the
+// compiled package util/resolve gives its System constants, as JSON and as a
+// Coq definition, to <outdir>/resolvesys.{json,frag}.
+func RuntimeSystems(vals []EnumValue) {
+	if len(os.Args) < 2 {
+		die(2, "usage: resolvesys <outdir>")
+	}
+	js, _ := json.MarshalIndent(vals, "", " ")
+	if err := os.WriteFile(filepath.Join(os.Args[1], "resolvesys.json"), js, 0o644); err != nil {
+		die(2, err)
+	}
+	text := "(* ---- util/resolve, compiled: int(resolve.X) ---- *)\nDefinition resolve_runtime : list (bytes * Z) :=\n  " +
+		coqList("  ", vals, func(_ string, v EnumValue) string { return fmt.Sprintf("(%s, %s)", coqBytes(v.Name), coqZ(v.Number)) }) + ".\n\n"
+	if err := os.WriteFile(filepath.Join(os.Args[1], "resolvesys.frag"), []byte(text), 0o644); err != nil {
 		die(2, err)
 	}
 }
